@@ -167,6 +167,16 @@ def main():
         if model:
             model.close()
     obligations, discharged, log, status = common.check_props_file(prop)
+    if args.tier == "thorough" and model is not None:
+        try:
+            import xcheck
+            m2 = Model()
+            xcheck.run_xcheck(run, m2)
+            m2.close()
+            if run.components.get("X-extraction", {}).get("diffs"):
+                run.broken.append("extraction cross-check: vm_compute and the extracted driver disagree")
+        except Exception as e:
+            run.notes.append("extraction cross-check crashed: %s" % type(e).__name__)
     if args.tier == "thorough":
         # independent re-check of the compiled property file and everything it depends on
         rcc, outc = common.sh("timeout 3000 coqchk -silent -o -Q gen \"\" -Q Model \"\" -Q Proofs \"\" -Q Props \"\" %s 2>&1" % prop, cwd=common.COQ, timeout=3100)
